@@ -89,6 +89,7 @@ class TranslateError(Exception):
 STR, INT, BOOL, PAT, PATS, DYN, NONE, MATCH = "str", "int", "bool", "pat", "pats", "dyn", "none", "match"
 ITEM, KEYS, VERSION, OTABLE, OENTRY, OEX, FLOATV, REGEX, TPL, ARR, CURVE, SAMPLE, SECTION = \
     "item", "keys", "version", "otable", "oentry", "oex", "floatv", "regex", "tpl", "arr", "curve", "sample", "section"
+MATCHOBJ = "matchobj"
 
 
 def LIST(t):
@@ -115,7 +116,8 @@ SIMPLE_TYPE = {STR: "list N", INT: "Z", BOOL: "bool", PAT: "list frag", PATS: "l
                ITEM: "py_item V", KEYS: "py_keys", VERSION: "las_version",
                OTABLE: "list ((las_version * list N) * order_entry)", OENTRY: "order_entry",
                OEX: "(item_order * list (list N))", FLOATV: "F", REGEX: "re", TPL: "list tpl", ARR: "A", CURVE: "C",
-               SAMPLE: "Smp", SECTION: "(bool * list (py_item V))"}
+               SAMPLE: "Smp", SECTION: "(bool * list (py_item V))",
+               MATCHOBJ: "option st"}
 
 
 def is_type(ty, kind):
@@ -302,6 +304,11 @@ Record write_ops (Smp : Type) := mk_write_ops {
   w_fmt_pi : list N -> list N;
   w_wrap : Z -> list N -> list (list N) }.
 Arguments s_isnan {Smp}. Arguments s_fmt {Smp}. Arguments s_str {Smp}. Arguments w_fmt_pi {Smp}. Arguments w_wrap {Smp}.
+(* m.groupdict() of a match of one of the header-line patterns: the named groups that took part, in the
+   order of their numbers (translators/regexes.py numbers name / unit / value / descr as 0 .. 3) *)
+Definition pyo_groupdict (y : st) : list (list N * list N) :=
+  List.flat_map (fun kn : list N * nat => match group_opt (snd kn) (caps y) with Some v => [(fst kn, v)] | None => [] end)
+    [([110; 97; 109; 101], 0%nat); ([117; 110; 105; 116], 1%nat); ([118; 97; 108; 117; 101], 2%nat); ([100; 101; 115; 99; 114], 3%nat)].
 (* what las._json_value asks of a header value or sample: isinstance(x, np.integer),
    isinstance(x, (float, np.floating)), np.isfinite(x), int(x), float(x), None *)
 Record json_ops (V : Type) := mk_json_ops {
@@ -381,6 +388,7 @@ class Tr:
         self.uses_rec = False    # the function calls itself (translated with fuel)
         self.loop_ret = []       # inside loops with a return: is the context around the loop partial?
         self.handlers = []       # enclosing `try ... except <Class>:` handlers, innermost last
+        self.loop_brk = []       # inside loops with a break: what `break` emits
 
     # ---- helpers ---------------------------------------------------------------------------
     def fresh(self):
@@ -394,8 +402,8 @@ class Tr:
         """the construct at hand may raise: its context must produce an option"""
         if self.in_try:
             self.err(node, "an operation that may raise inside a try whose handler is not translated")
-        if self.loop_ret:
-            self.err(node, "an operation that may raise inside a loop with a return")
+        if self.loop_ret or self.loop_brk:
+            self.err(node, "an operation that may raise inside a loop with a return / break")
         if not self.pmode[-1]:
             raise NeedPartial()
 
@@ -573,6 +581,10 @@ class Tr:
 
     def expr_want(self, n, env, want):
         """an expression whose type is given by a declaration (empty list / dict literals, None)"""
+        if isinstance(n, ast.List) and not n.elts and want == PATS:
+            return E("([] : list (list frag))", PATS)
+        if isinstance(n, ast.Constant) and n.value is None and want == MATCHOBJ:
+            return E("(None : option st)", MATCHOBJ)
         if isinstance(n, ast.List) and not n.elts and is_type(want, "list"):
             return E("([] : %s)" % self.ctype(want, n), want)
         if isinstance(n, ast.Dict) and is_type(want, "dict") and want[1] == STR:
@@ -784,6 +796,8 @@ class Tr:
                 return self.strict([a], lambda c: wrap("dyn_is_none ops (%s)" % c[0]), BOOL)
             if is_type(a.ty, "opt") and b.ty == NONE:
                 return self.strict([a], lambda c: wrap("pyo_is_none (%s)" % c[0]), BOOL)
+            if a.ty == MATCHOBJ and b.ty == NONE:
+                return self.strict([a], lambda c: wrap("pyo_is_none (%s)" % c[0]), BOOL)
             if a.ty == BOOL and b.ty == BOOL and b.const is not None:
                 # flag is False / flag is True on a bool
                 pos = (lambda s: s) if b.const else (lambda s: "negb (%s)" % s)
@@ -982,6 +996,9 @@ class Tr:
                     self.err(n, "arity of %s" % f.id)
                 args = [self.coerce(self.expr(a, env), t, n) for a, t in zip(n.args, fty[1])]
                 return self.strict(args, lambda c: "(%s %s)" % (self.var(f.id), " ".join("(%s)" % x for x in c)), fty[2])
+            if f.id in REGISTRY and REGISTRY[f.id].get("file") == self.spec["file"]:
+                # another module-level function of the same module, translated earlier
+                return self.call_registered(f.id, [self.expr(a, env) for a in n.args], n)
             if f.id == "len" and len(n.args) == 1:
                 a = self.expr(n.args[0], env)
                 if a.ty == STR:
@@ -1025,6 +1042,11 @@ class Tr:
                 if (p.ty, t.ty, s.ty) != (REGEX, TPL, STR):
                     self.err(n, "re.sub on %s, %s, %s" % (p.ty, t.ty, s.ty))
                 return self.strict([p, t, s], lambda c: "re_sub (%s) (%s) (%s)" % (c[0], c[1], c[2]), STR)
+            if f.attr == "match" and len(n.args) == 2:
+                p, t = self.expr(n.args[0], env), self.expr(n.args[1], env)
+                if (p.ty, t.ty) != (PAT, STR) or not any(sp.get("mode") == "patterns" and "done" in sp for sp in SPECS):
+                    self.err(n, "re.match on %s and %s" % (p.ty, t.ty))
+                return self.strict([p, t], lambda c: "re_match (pat_re (%s)) (%s)" % (c[0], c[1]), MATCHOBJ)
             if f.attr != "search" or len(n.args) != 2:
                 self.err(n, "unsupported re.%s call" % f.attr)
             p = n.args[0]
@@ -1065,6 +1087,9 @@ class Tr:
         m = f.attr
         args = [self.expr(a, env) for a in n.args]
         tys = [a.ty for a in args]
+        if r.ty == MATCHOBJ and m == "groupdict" and not args:
+            # AttributeError on None
+            return self.partial_op([r], lambda c: "option_map pyo_groupdict (%s)" % c[0], DICT(STR, STR), exc="AttributeError")
         if is_type(r.ty, "dict") and m == "get" and len(args) == 2 and tys[0] == r.ty[1]:
             d = self.coerce(args[1], r.ty[2], n)
             pre = self.dict_prefix(r.ty, n)
@@ -1130,7 +1155,7 @@ class Tr:
     # ---- statements ------------------------------------------------------------------------
     @staticmethod
     def has_return(stmts):
-        return any(isinstance(x, (ast.Return, ast.Raise)) for s in stmts for x in ast.walk(s))
+        return any(isinstance(x, (ast.Return, ast.Raise, ast.Break)) for s in stmts for x in ast.walk(s))
 
     def assigned(self, stmts, acc):
         """names (re)bound by a statement list, in order of first appearance"""
@@ -1277,6 +1302,10 @@ class Tr:
             if isinstance(s.value, ast.Tuple):
                 return self.ret(self.expr_want(s.value, env, self.frames[-1]["ret"]), s)
             return self.ret(self.expr(s.value, env), s)
+        if isinstance(s, ast.Break):
+            if rest or not self.loop_brk:
+                self.err(s, "unsupported break")
+            return self.loop_brk[-1](env)
         if isinstance(s, ast.Raise):
             if rest:
                 self.err(rest[0], "statement after raise")
@@ -1564,9 +1593,13 @@ class Tr:
     def for_stmt(self, s, env, go):
         if self.handlers:
             self.err(s, "a loop inside try/except")
+        breaks = any(isinstance(x, ast.Break) for b in s.body for x in ast.walk(b))
         for x in ast.walk(s):
-            if isinstance(x, (ast.Break, ast.Continue, ast.Raise, ast.FunctionDef, ast.Lambda, ast.While)):
+            if isinstance(x, (ast.Continue, ast.Raise, ast.FunctionDef, ast.Lambda, ast.While)) or (isinstance(x, ast.Break) and not breaks):
                 self.err(x, "%s inside a for loop" % type(x).__name__)
+        if breaks:
+            if s.orelse or any(isinstance(x, (ast.Return, ast.For)) for b in s.body for x in ast.walk(b)):
+                self.err(s, "a loop with break and else / return / an inner loop")
         if s.orelse:
             # no break: the else clause simply runs after the loop
             after, go = go, (lambda env2: self.stmts(s.orelse, env2, after))
@@ -1581,9 +1614,12 @@ class Tr:
             ety = TUPLE(it.ty[1], it.ty[2])
         else:
             it = self.expr(it_node, env)
-            if not is_type(it.ty, "list"):
+            if it.ty == PATS:
+                ety = PAT
+            elif not is_type(it.ty, "list"):
                 self.err(s, "iteration over %s" % (it.ty,))
-            ety = it.ty[1]
+            else:
+                ety = it.ty[1]
         if it.partial:
             self.err(s, "the iterated expression may raise")
         # the loop variable(s)
@@ -1615,6 +1651,8 @@ class Tr:
             self.err(s, "a loop that changes no variable defined before it")
         if returns:
             return self.for_return(s, env, go, state, targets, binder, unpack, it, touched, tnames)
+        if breaks:
+            return self.for_break(s, env, go, state, targets, binder, unpack, it, touched, tnames)
         for nm in state:
             self.ctype(env[nm], s)
         env_body = dict(env)
@@ -1643,6 +1681,40 @@ class Tr:
         return "let %s := fold_left (fun %s %s =>\n%s) (%s) %s in\n%s" % (
             pat, pat if len(state) > 1 else "(%s : %s)" % (tup, self.ctype(env[state[0]], s)), binder, indent(unpack + body),
             it.code, tup, go(env3))
+
+    def for_break(self, s, env, go, state, targets, binder, unpack, it, touched, tnames):
+        """a loop whose body may break: the fold carries inl <state> once the loop is left, else inr <state>.
+        The body must not raise."""
+        if not state:
+            self.err(s, "a loop that changes no variable defined before it")
+        for nm in state:
+            self.ctype(env[nm], s)
+        env_body = dict(env)
+        for nm, t in targets:
+            env_body[nm] = t
+        tup = "(" + ", ".join(self.var(nm) for nm in state) + ")" if len(state) > 1 else self.var(state[0])
+        pat = "'" + tup if len(state) > 1 else tup
+
+        def leave(env2, tag):
+            for nm in state:
+                if env2.get(nm) != env[nm]:
+                    self.err(s, "the loop changes the type of %r" % nm)
+            return "%s %s" % (tag, tup)
+        self.loop_brk.append(lambda env2: leave(env2, "inl"))
+        self.pmode.append(False)
+        try:
+            body = self.stmts(s.body, env_body, lambda env2: leave(env2, "inr"))
+        finally:
+            self.pmode.pop()
+            self.loop_brk.pop()
+        env3 = dict(env)
+        for nm in touched + tnames:
+            if nm not in state:
+                env3[nm] = None
+        acc, r = self.fresh(), self.fresh()
+        return ("let %s :=\n  match fold_left (fun %s %s => match %s with inl %s => inl %s | inr %s =>\n%s\n    end) (%s) (inr %s) with\n"
+                "  | inl %s => %s\n  | inr %s => %s\n  end in\n%s") % (
+            pat, acc, binder, acc, r, r, pat, indent(unpack + body, 6), it.code, tup, r, r, r, r, go(env3))
 
     def for_return(self, s, env, go, state, targets, binder, unpack, it, touched, tnames):
         """a loop whose body may return: the fold carries inl <the function's result> once a return
@@ -1867,6 +1939,7 @@ class Tr:
             out.append("(* %s = %s *)" % (name, csafe(pat)))
             out.append("Definition %s : re := %s." % (name, term))
         if self.patterns:
+            spec["done"] = True
             out.append("Inductive frag := %s." % " | ".join("F_" + f for f in self.frags))
             out.append("Definition frag_re (f : frag) : re :=\n  match f with\n%s\n  end." %
                        "\n".join("  | F_%s => rx_%s" % (f, f) for f in self.frags))
@@ -1889,6 +1962,7 @@ class Tr:
             REGISTRY[qual] = dict(
                 coq=spec["coq"], args=[t for t in spec.get("self_attrs", {}).values()] + [t for _, t in spec["params"] if t is not None],
                 ret=spec["ret"], partial=self.fn_partial, ops=needs_ops, extra=list(spec.get("extra_binders", [])),
+                file=spec["file"] if not spec.get("cls") and not spec.get("translator") else None,
                 self_attrs=list(spec.get("self_attrs", {})))
         return "\n".join(out)
 
@@ -2261,6 +2335,9 @@ SPECS += [
          returns_lambda=[("item", ITEM)], ret=STR),
     dict(py="read_header_line", file="reader.py", cls=None, coq="py_header_line_fields", translator=HeaderPostTr,
          params=[("mdict", DICT(STR, STR))], locals={"d": DICT(STR, STR)}, ret=DICT(STR, STR)),
+    dict(py="read_header_line", file="reader.py", cls=None, coq="py_read_header_line",
+         params=[("line", STR), ("pattern", OPT(PAT)), ("section_name", STR)],
+         locals={"d": DICT(STR, STR), "patterns": PATS, "m": MATCHOBJ}, ret=DICT(STR, STR)),
     dict(py="num", file="reader.py", cls="SectionParser", coq="py_num",
          params=[("self", None), ("x", STR), ("default", OPT(STR))], ret=DYN,
          extra_binders=NUM_BINDERS, oracles=NUM_ORACLES, float_to_dyn="num_of_float nops",
